@@ -52,18 +52,19 @@ Proof. intros w i p (_ & M & _) H Hin. apply M in Hin. congruence. Qed.
    included -- keeps running exactly the table's set (KJ = running-set invariant for directly held items and
    for charges / autocharges, ownership, links child -> holder) *)
 Theorem C11_removed_holder_keeps_no_autocharges : forall n s m mit,
-  J (fst s) -> KK (fst s) -> CP (fst s) -> get_item (fst s) m = Some mit -> direct mit ->
+  J (fst s) -> KK (fst s) -> CP (fst s) -> LS (fst s) -> get_item (fst s) m = Some mit -> direct mit ->
   w_err (fst (remove_item (S (S (S (S n)))) s m)) = None ->
   let w' := fst (remove_item (S (S (S (S n)))) s m) in
-  KK w' /\ CP w' /\
+  KK w' /\ CP w' /\ LS w' /\
   exists mit', get_item w' m = Some mit' /\ i_loaded mit' = None /\ i_cont mit' = None /\ i_autos mit' = [] /\
                i_charge mit' = i_charge mit.
 Proof.
-  intros n s m mit Js K Cp Hm D He.
-  destruct (remove_dir n s m mit Js K Cp Hm D He) as (K' & _ & (x & G & H1 & H2 & H3 & _ & _ & H6) & Cp').
-  split; [exact K'|split; [exact Cp'|]]. exists x. repeat split; assumption.
+  intros n s m mit Js K Cp Ls Hm D He.
+  destruct (remove_dir n s m mit Js K Cp Ls Hm D He) as (K' & _ & (x & G & H1 & H2 & H3 & _ & _ & H6) & Cp' & Ls').
+  split; [exact K'|split; [exact Cp'|split; [exact Ls'|]]]. exists x. repeat split; assumption.
 Qed.
-(* KJ also carries the links between items and what they hold (CP: whatever an item lists names it) *)
+(* KJ also carries the links between items and what they hold (CP: whatever an item lists names it) and LS:
+   a loaded directly held item is loaded from its fit's current source *)
 Theorem C11_removal_keeps_charge_invariants : forall s i,
   KJ (fst s) -> (exists it, get_item (fst s) i = Some it /\ direct it) ->
   w_err (fst (remove_item F s i)) = None -> KJ (fst (remove_item F s i)).
